@@ -791,6 +791,8 @@ def run_c15(ctx, chk):
     nb = prog.bodies.get('screen::Screen::new')
     calls = [((t['func'].get('fn') or {}).get('resolved') or (t['func'].get('fn') or {}).get('path', ''), bi) for bi, t in prog.calls(nb)]
     local_calls = [c for c, bi in calls if c in prog.bodies and not c.endswith('::deref') and 'Default' not in c]
+    # helpers that only build a value (`Cursor::home(..)`) change nothing on a Screen: they are part of "building the struct"
+    local_calls = [c for c in local_calls if c == f or ctx.eff.maywrite.get(c)]
     chk.instance('R-NEW', 'screen::Screen::new', 'constructor = literal + reset()', local_calls == [f], detail='crate-local calls: %s' % [short(c) for c in local_calls],
                  span=nb.span, what='Screen::new does more than build the struct and call reset(): %s' % [short(c) for c in local_calls])
     # ESC c dispatch
@@ -1160,6 +1162,8 @@ def run_c04(ctx, chk):
         ev = e['ev']
         if e['func'] not in funcs or e['ep'] != draw or ev[0] != 'map.insert' or g.level_of(e) != 'cell':
             continue
+        if not g.own_stack(prog, e.get('stack') or (), draw):
+            continue      # stored by another operation that draw calls (ICH in insert mode): decided there
         if g.is_materialising_insert(eng, e):
             continue      # no cell changes its meaning (R-ABSENT looks at what is materialised)
         st = e['st']
